@@ -236,6 +236,37 @@ func (r *nodeRun) c08Checks(c *cluster, obs *vnode, rounds []string) {
 		}
 		rep.closeReplica()
 	}
+	// (2b) the node's OWN loop: everywhere else the harness plays the poller (read the offset, read the board, hand the
+	// messages over one by one, save the offset after each); here a fresh process runs the real Poll() until it has consumed
+	// the log (its ticker fires once a second) and must end where the live node is
+	{
+		rep, err := c.replica(j.idx, "realloop", nil)
+		if err == nil {
+			done := make(chan error, 1)
+			go func() { done <- rep.svc.Poll() }()
+			deadline := time.Now().Add(20 * time.Second)
+			for time.Now().Before(deadline) {
+				if off, err := rep.st.LoadOffset(); err == nil && int(off) >= logLen {
+					break
+				}
+				time.Sleep(50 * time.Millisecond)
+			}
+			rep.cancel()
+			select {
+			case <-done:
+			case <-time.After(5 * time.Second):
+				r.mon("harness: the real Poll loop did not return after its context was cancelled")
+			}
+			st.C08Compared++
+			st.C08RealLoop++
+			if off, _ := rep.st.LoadOffset(); int(off) != logLen {
+				r.mon(fmt.Sprintf("C08 replay_eq_live: the node's own Poll loop, started on an empty state, stopped at offset %d of %d within 20 s", off, logLen))
+			} else if p := publicProj(rep, ""); p != live {
+				r.mon(fmt.Sprintf("C08 replay_eq_live: %s rebuilt from an empty state by its own Poll loop (%d messages) differs from the live node %s", j.name, logLen, firstDiff(live, p)))
+			}
+			rep.closeReplica()
+		}
+	}
 	// (3) prefix agreement: two different participants, two different batchings, same prefix
 	if len(honest) >= 2 && logLen > 2 {
 		k := 1 + r.rng.Intn(logLen-1)
